@@ -62,7 +62,9 @@ class WcPeer(SimPeer):
         return out
 
 
-def async_session(n_cmds, rng, snapshot="/repo/tests/snapshots/default.snapshot", lossy=False):
+def async_session(n_cmds, rng, snapshot="/repo/tests/snapshots/default.snapshot", lossy=False, early_push=None):
+    """early_push: delay after the creation of the connection's endpoint at which the spa reports a change (it still has
+    the client on its list from an earlier connection): the acknowledgement is then the first numbered datagram"""
     from geckolib import GeckoAsyncSpaMan
 
     class Man(GeckoAsyncSpaMan):
@@ -87,8 +89,24 @@ def async_session(n_cmds, rng, snapshot="/repo/tests/snapshots/default.snapshot"
             return None
         net.s2c = s2c
     with World(net) as w:
+        holder = {}
+
+        def on_endpoint(tr, proto):
+            m = holder.get("m")
+            if early_push is None or tr.kw.get("allow_broadcast") or m is None or m._spa is None or holder.get("done"):
+                return
+            holder["done"] = True
+            spa_ = m._spa
+            parms = (tr.local[0], tr.local[1], spa_.client_id, spa_.descriptor.identifier)
+            for i in range(3):
+                ch = [(300 + 2 * i, bytes([rng.randrange(256), rng.randrange(256)]))]
+                peer.sim.structure.replace_status_block_segment(*ch[0])
+                net.inject(tr, peer.push_changes(parms, ch), peer.addr, delay=early_push + 0.3 * i)
+        w.loop.on_endpoint = on_endpoint
+
         async def main():
             async with Man() as m:
+                holder["m"] = m
                 for _ in range(400):
                     await asyncio.sleep(0.1)
                     if m.facade is not None:
@@ -174,6 +192,12 @@ def run(ctx):
         logs.append({"client": "async", "thr": [h], "n": len(h)})
     for h in async_session(n // 3, rng, lossy=True):
         logs.append({"client": "async", "thr": [h], "n": len(h)})
+    for d in (0.001, 0.04, 0.12):
+        hs = async_session(6, rng, early_push=d)
+        if d == 0.001 and not any(h and h[0]["verb"] == "STATQ" for h in hs):
+            raise env.MachineryError("early push: the acknowledgement was not the connection's first numbered datagram")
+        for h in hs:
+            logs.append({"client": "async", "thr": [h], "n": len(h), "early_push": d})
     for h in threaded_session(n, rng):
         logs.append({"client": "threaded", "thr": [h], "n": len(h)})
     logs = [l for l in logs if l["n"]]
